@@ -8,6 +8,7 @@ import (
 	"path"
 	"strings"
 	"sync"
+	"testing/iotest"
 	"time"
 
 	"github.com/flosch/pongo2/v6"
@@ -60,7 +61,40 @@ func (l *memLoader) Get(p string) (io.Reader, error) {
 		return nil, fmt.Errorf("memLoader: %s not found", p)
 	}
 	l.hits = append(l.hits, p)
-	return strings.NewReader(s), nil
+	return readerOfKind(s, int(hashStr(p+"\x00"+s)%16)), nil
+}
+
+// readerOfKind: the loaders of the harness hand their texts out through every legal kind of io.Reader (chosen by a
+// hash of name and text, so reproducibly): fresh and PARTLY CONSUMED sized readers (a loader that skipped a BOM or a
+// front-matter header before returning the reader), section readers, buffers, readers that deliver their last bytes
+// together with io.EOF, one byte or half a request at a time.
+func readerOfKind(s string, kind int) io.Reader {
+	const header = "\xEF\xBB\xBF---\nheader: skipped by the loader\n---\n"
+	switch kind {
+	case 0:
+		rd := strings.NewReader(header + s)
+		rd.Seek(int64(len(header)), io.SeekStart)
+		return rd
+	case 1:
+		rd := bytes.NewReader([]byte(header + s))
+		io.CopyN(io.Discard, rd, int64(len(header)))
+		return rd
+	case 2:
+		return io.NewSectionReader(strings.NewReader("junk"+s+"junk"), 4, int64(len(s)))
+	case 3:
+		return bytes.NewBufferString(s)
+	case 4:
+		return iotest.DataErrReader(strings.NewReader(s))
+	case 5:
+		return iotest.HalfReader(strings.NewReader(s))
+	case 6:
+		if len(s) < 1<<16 {
+			return iotest.OneByteReader(strings.NewReader(s))
+		}
+	case 7:
+		return bytes.NewReader([]byte(s))
+	}
+	return strings.NewReader(s)
 }
 
 func (l *memLoader) reset() {
